@@ -120,6 +120,11 @@ func (g *grpcHandler) ContentTypes() map[string]struct{} {
 }
 
 func (*grpcHandler) SetTimeout(request *http.Request) (context.Context, context.CancelFunc, error) {
+	if values := request.Header[grpcHeaderTimeout]; len(values) > 0 && values[0] == "" {
+		// Present but empty is not the same as absent: it is a timeout without
+		// number and unit.
+		return nil, nil, errorf(CodeInvalidArgument, "gRPC protocol error: timeout header is empty")
+	}
 	timeout, err := grpcParseTimeout(request.Header.Get(grpcHeaderTimeout))
 	if err != nil && !errors.Is(err, errNoTimeout) {
 		// Errors here indicate that the client sent an invalid timeout header, so
